@@ -565,7 +565,9 @@ pub fn resolve_model(raw: &RawModel) -> ModelCase {
             let mut ws: Vec<TagWeightSpec> = vec![];
             for (r, w) in &g.rels {
                 let rel = ((*r as usize * (cw + 1)) >> 8) as u8;
-                if ws.iter().any(|o| o.rel_position == rel) {
+                // the same relative position listed twice for one n-gram (a merged or edited
+                // model) is legal and both entries contribute; one repetition in four is kept
+                if ws.iter().any(|o| o.rel_position == rel) && w[0] & 3 != 0 {
                     continue;
                 }
                 ws.push(TagWeightSpec {
@@ -592,7 +594,7 @@ pub fn resolve_model(raw: &RawModel) -> ModelCase {
             let mut ws: Vec<TagWeightSpec> = vec![];
             for (r, w) in &g.rels {
                 let rel = ((*r as usize * (tw + 1)) >> 8) as u8;
-                if ws.iter().any(|o| o.rel_position == rel) {
+                if ws.iter().any(|o| o.rel_position == rel) && w[0] & 3 != 0 {
                     continue;
                 }
                 ws.push(TagWeightSpec {
